@@ -93,7 +93,7 @@ fn custom_pool_withdrawals(run: &Run, thorough: bool) {
 
 /// Liquidity tokens of the built-in pools that the pools never issued (a faucet can mint any denomination off mainnet):
 /// withdrawals that, alone or together in one block, claim all of a built-in pool's recorded liquidity.
-fn unissued_liquidity_tokens(run: &Run, thorough: bool) {
+pub fn unissued_liquidity_tokens(run: &Run, thorough: bool) {
     let (_w, rootn) = root(NetID::Custom02, 0, true);
     let mut eng = Engine::new(run);
     // the faucet below breaks the backing invariant by construction (faucets are not among the histories C16 quantifies over);
